@@ -827,7 +827,7 @@ package geojson
 //@   loop 0 assert OldKids: forall j int :: (0 <= j && j < collN(g)) ==> old(KidInv(collChild(g,j)))
 //@   loop 0 assert SameHead: forall j int :: (0 <= j && j < collN(g)) ==> (KidInv(collChild(g,j)) && oEmpty(collChild(g,j)) == old(oEmpty(collChild(g,j))) && oRect(collChild(g,j)) == old(oRect(collChild(g,j))))
 //@   loop 0 assert collChild(g, $i) == child && KidInv(child)
-//@   stmt collection.go:"if count == 0 {" use AFrameKid(child, g)
+//@   stmt collection.go:"g.prect = " use AFrameKid(child, g)
 //@   loop 0 use forall j int :: AFrameKid(collChild(g, j), g)
 //@   loop 0 use frameFolds(g, $i)
 //@   loop 0 use frameFolds(g, $i+1)
@@ -892,8 +892,7 @@ package geojson
 //@   loop 0 assert geometry.ptAt(points, $i) == point
 //@   stmt multipoint.go:"g.parseInitRectIndex(DefaultParseOptions)" use forall j int :: pointKid(collChild(g.collection, j))
 
-// ---------------------------------------------------------------- NewMultiLineString (children built by NewLineString). NewMultiPolygon stays without contract: the same proof needs the children invariant
-// through the opaque PolyInv, and no solver instantiates it across the append (tried: raw slice form, opaque wrappers, a bridge lemma)
+// ---------------------------------------------------------------- NewMultiLineString (children built by NewLineString); NewMultiPolygon follows further below with a hidden predicate
 //@ spec func lineAt(ls []*geometry.Line, i int) *geometry.Line opaque { ls[i] }
 //@ lemma lineStringKid(o Object)
 //@   props C10 C08
@@ -912,3 +911,35 @@ package geojson
 //@   loop 0 invariant Kids: collN(g.collection) == $i && (forall j int :: (0 <= j && j < $i) ==> (isLineStringK(collChild(g.collection, j)) && geometry.LineInv(lineOf(collChild(g.collection, j)))))
 //@   loop 0 assert lineAt(lines, $i) == line
 //@   stmt multilinestring.go:"g.parseInitRectIndex(DefaultParseOptions)" use forall j int :: lineStringKid(collChild(g.collection, j))
+
+// ---------------------------------------------------------------- NewMultiPolygon (children built by NewPolygon)
+// polyKidOK is `hidden`: inside the constructor's loop it is an uninterpreted predicate (its definition pulls in the quantified ring /
+// polygon invariants, whose axioms send every solver into a matching loop together with the append facts); it is revealed only where its
+// meaning is needed (NewPolygon's postcondition, lemma polygonKid).
+//@ spec func polyAt(ps []*geometry.Poly, i int) *geometry.Poly opaque { ps[i] }
+//@ spec func polyKidOK(o Object) bool rec hidden { isPolygonK(o) && geometry.PolyInv(polyOf(o)) }
+//@ lemma polygonKid(o Object)
+//@   props C10 C08
+//@   reveal polyKidOK
+//@   requires polyKidOK(o)
+//@   ensures KidInv(o) && !isCollObjK(o) && isPolygonK(o)
+// the children slice read directly (the form that survives `append`) and through the opaque accessor collChild
+//@ lemma polyKidsBridge(c *collection, n int)
+//@   props C10
+//@   requires c != nil && n == len(c.children) && (forall j int :: (0 <= j && j < n) ==> polyKidOK(c.children[j]))
+//@   ensures collN(c) == n && (forall j int :: (0 <= j && j < n) ==> polyKidOK(collChild(c, j)))
+//@ func NewMultiPolygon
+//@   props C10 C11
+//@   arith order
+//@   entry use rootGlobalsInit()
+//@   requires Polys: forall i int :: (0 <= i && i < len(polys)) ==> (polyAt(polys, i) != nil ==> geometry.PolyInv(polyAt(polys, i)))
+//@   ensures Kind: isMultiPolygonK(result) && !old($alloc)[result]
+//@   ensures Inv: CollInv(result.collection)
+//@   ensures Kids: collN(result.collection) == len(polys) && (forall i int :: (0 <= i && i < len(polys)) ==> isPolygonK(collChild(result.collection, i)))
+//@   loop 0 invariant Fresh: g != nil && !old($alloc)[g] && !old($alloc)[g.collection] && g.collection.prect == zeroRect() && g.collection.tree == nil
+//@   loop 0 invariant Frame: forall c *collection :: old($alloc)[c] ==> (c.children == old(c.children) && c.pempty == old(c.pempty) && c.prect == old(c.prect) && c.tree == old(c.tree) && c.extra == old(c.extra))
+//@   loop 0 invariant Kids: len(g.collection.children) == $i && (forall j int :: (0 <= j && j < $i) ==> polyKidOK(g.collection.children[j]))
+//@   loop 0 assert polyAt(polys, $i) == poly
+//@   stmt multipolygon.go:"g.parseInitRectIndex(DefaultParseOptions)" use polyKidsBridge(g.collection, len(polys))
+//@   stmt multipolygon.go:"g.parseInitRectIndex(DefaultParseOptions)" assert KidsO: collN(g.collection) == len(polys) && (forall j int :: (0 <= j && j < len(polys)) ==> polyKidOK(collChild(g.collection, j)))
+//@   stmt multipolygon.go:"g.parseInitRectIndex(DefaultParseOptions)" use forall j int :: polygonKid(collChild(g.collection, j))
